@@ -121,6 +121,22 @@ def run(ck: Checker):
                 if not any(s_.id in reachable(cfg, [d.id], avoid={loop}) for s_ in sends):
                     probs.append('after a failed dispatch nothing is sent back: the caller waits for ever')
     ck.ob('C14-2', f, cm[0].ast, not probs, '; '.join(probs) if probs else 'a failing dispatch is answered with a #TRACEBACK message and the serve loop goes on; only EOF / a failed send end it')
+    # ------------------------------------------------------------------ C14-7
+    ck.rule('C14-7', "the in-process shortcut is taken only for proxies of this very server: every function that receives a token obtains the server with get_server(<token>.address), and get_server returns the running server only when the addresses agree (AGREE)", minimum=2)
+    gs = mod.func('get_server')
+    gp = gs.params()
+    probs = []
+    cmp_ = [n for n in ast.walk(gs.node) if isinstance(n, ast.Compare) and len(n.ops) == 1 and isinstance(n.ops[0], ast.Eq) and {norm_text(n.left), norm_text(n.comparators[0])} == {'server.address', gp[0] if gp else ''}]
+    if not gp or not cmp_:
+        probs.append('get_server does not compare the running server\'s address with the requested one')
+    ck.ob('C14-7', gs, (gs.node.lineno, 'get_server'), not probs, '; '.join(probs) if probs else 'returns the running server for a matching address (or when no address is given: "any server in this process")')
+    for g in mod.functions.values():
+        ps = g.params()
+        if 'token' not in ps:
+            continue
+        for c in [n for n in walk_shallow_func(g.node) if isinstance(n, ast.Call) and dotted(n.func) == 'get_server']:
+            ok = bool(c.args) and norm_text(c.args[0]) == 'token.address' or any(k.arg == (gp[0] if gp else 'address') and norm_text(k.value) == 'token.address' for k in c.keywords)
+            ck.ob('C14-7', g, c, ok, 'the server is looked up by the address of the token at hand' if ok else f'`{norm_text(c)}` ignores the token\'s address: inside a server process a proxy that belongs to ANOTHER manager takes the in-process shortcut against this server\'s tables (KeyError / the wrong object) — passing such a proxy to a hosted method or storing it in a hosted container fails')
     # ------------------------------------------------------------------ C14-6
     ck.rule('C14-6', 'a value wrapped by managed() a second time stays reachable through its earlier proxies: Server.create initialises the count entry only if absent, before the proxy is built (same obligation as C13-4, decided here for "state is visible through every proxy")', minimum=1)
     from .c13 import check_create_bookkeeping
